@@ -62,6 +62,26 @@ def handleQ (qf : QFmt) (toks : List String) : Option (Option String) :=
     | none => some none
     | some s => some (some (expectQ qf s))
 
+/-- `q32 histpx <N> …`: a Q32E2 history with PxE2<N> operands (the patterns are P32E2 patterns whose low 32-N bits are zero);
+every conversion of the final state into PxE2<N> is the exact sum rounded ONCE to an N-bit posit (es = 2), left-aligned -/
+def handleQpx (nTok : String) (toks : List String) : Option (Option String) :=
+  let n := hexNat nTok
+  if n < 2 ∨ n > 32 then none else
+  match parseQ toks (toks.length + 1) with
+  | none => none
+  | some ops =>
+    -- operands outside the type (non-zero low bits) are outside C14
+    let okOp (o : QOp) : Bool := match o with
+      | .addProd a b | .subProd a b => lowZero n a && lowZero n b
+      | .addOne a | .subOne a => lowZero n a
+      | _ => true
+    if !(ops.all okOp) then some none else
+    match runQ q32 ops with
+    | none => some none
+    | some s =>
+      let r := match s with | none => 2147483648 | some x => embed n (round (px2 n) x)
+      some (some s!"{toHex r} {toHex r} {toHex r} {if s.isNone then 1 else 0}")
+
 /-- C19: a sample must be a real posit in [0,1): pattern below the pattern of 1.0 (predicate-style: the expected string is
 the implementation's own result when the predicate holds) -/
 def sampleOk (f : Fmt) (res : String) : Option (Option String) :=
@@ -87,5 +107,6 @@ def handle (ws : List String) (res : String) : Option (Option String) :=
   | "q8" :: "hist" :: toks => handleQ q8 toks
   | "q16" :: "hist" :: toks => handleQ q16 toks
   | "q32" :: "hist" :: toks => handleQ q32 toks
+  | "q32" :: "histpx" :: n :: toks => handleQpx n toks
   | _ => none
 end SpecExtra
